@@ -11,10 +11,17 @@ mkdir -p $DET
 (cd $DET/repo && git checkout -q -- . && git checkout -q --detach "$(git -C /repo rev-parse HEAD)")
 (cd $DET/verif && git checkout -q -- . && git checkout -q --detach "$(git -C /verif rev-parse HEAD)" && sed -i 's|path = "/repo"|path = "'$DET'/repo"|' harness/Cargo.toml)
 ids="$*"
-[ -z "$ids" ] && ids=$(ls /verif/seeded | grep '^C')
+[ -z "$ids" ] && ids=$(ls /verif/seeded | grep '^C' | tr '\n' ' ')
 out=/verif/seeded/REGRESSION.txt
 echo "# detection of every seeded change by the quick tier of the check of its own property (verif $(git -C /verif rev-parse --short HEAD), repo $(git -C /repo rev-parse --short HEAD))" > $out
 for s in $ids; do
   REPO_ROOT=$DET/repo VERIF_ROOT=$DET/verif VERIF_TAG="@regression" python3 /verif/lib/seedeval.py detect $s 2>&1 | tail -1 | cut -c1-300 >> $out
 done
-grep -c "detected=True" $out
+# changes whose demonstration targets one property but whose mechanism belongs to a sibling property
+declare -A SIB=( [C04-2B]=C09 [C06-2B]=C02 [C06-B]=C08 [C12-2B]=C11 )
+for s in "${!SIB[@]}"; do
+  if echo " $ids " | grep -q " $s "; then
+    REPO_ROOT=$DET/repo VERIF_ROOT=$DET/verif VERIF_TAG="@regression" python3 /verif/lib/seedeval.py detect $s ${SIB[$s]} 2>&1 | tail -1 | cut -c1-300 >> $out
+  fi
+done
+echo "detected lines: $(grep -c "detected=True" $out) of $(grep -c "detected=" $out)"
